@@ -47,6 +47,8 @@ def rand_str(rng):
 def gen_world(rng, n):
     tasks, roots = es.gen_structure(rng, n)
     ids = rng.sample(range(0, 2 * n + 1), n)
+    if rng.random() < 0.3:
+        ids = [i + 1000 if i > 0 else i for i in ids]        # large numbers: equal ids are not the same int object
     attrs = []
     for i in range(n):
         a = {"prio": iv(rng.randint(0, 2)), "zz": ABSENT, "index": ABSENT}
@@ -109,7 +111,7 @@ def build(W):
                 kw[nm] = py(a[nm])
         if a.get("stale", ABSENT)["k"] != "absent":
             kw["parent_id"] = py(a["stale"])
-        objs.append(pj.Task(W["ids"][i], name=py(a["name"]), **kw))
+        objs.append(pj.Task(int(str(W["ids"][i])), name=py(a["name"]), **kw))
     w = pj.WBS()
 
     def attach(lst, numbers):
